@@ -12,6 +12,7 @@ mod c16;
 mod tracegen;
 mod c17;
 mod c18;
+mod c19;
 mod probe;
 mod viewgen;
 mod c10;
@@ -59,6 +60,7 @@ fn main() {
         "C16" => c16::run(&mut ctx),
         "C17" => c17::run(&mut ctx),
         "C18" => c18::run(&mut ctx),
+        "C19" => c19::run(&mut ctx),
         "C04" => c04::run(&mut ctx),
         "C05" => c05::run(&mut ctx),
         "C06" => c06::run(&mut ctx),
